@@ -5,8 +5,16 @@
 #![allow(unused)]
 #![cfg(kani)]
 pub mod util;
+#[cfg(any(feature = "c03", feature = "c04", feature = "c11", feature = "c12"))]
+pub mod ef_grid;
+#[cfg(any(feature = "c03", feature = "c04", feature = "c11", feature = "c12"))]
+pub mod efcommon;
 #[cfg(feature = "c01")]
 pub mod c01;
+#[cfg(feature = "c03")]
+pub mod c03;
+#[cfg(feature = "c04")]
+pub mod c04;
 #[cfg(feature = "c05")]
 pub mod c05;
 #[cfg(feature = "c06")]
